@@ -34,6 +34,7 @@ fn main() {
         "C07" => drive(&props::c07::C07, tier, seed, replay),
         "C09" => drive(&props::c09::C09, tier, seed, replay),
         "C13" => drive(&props::c13::C13, tier, seed, replay),
+        "C14" => drive(&props::c14::C14, tier, seed, replay),
         other => harness_error(&format!("unknown property {other}")),
     };
     std::process::exit(code);
